@@ -90,7 +90,7 @@ package encoder
 //@   ensures err == nil ==> $wfail == old($wfail)
 //@   loop 0: invariant err == nil && $wfail == old($wfail) && out != nil && len(buf) <= len(*out) && base(buf) == base(*out) && off(buf) == off(*out) + len(*out) - len(buf)
 //@   loop 0: invariant encOK(val, enc.Opts) && len(*out) == len(encOut(val, enc.Opts)) && $wlen == old($wlen) + len(*out) - len(buf)
-//@   loop 0: invariant forall k int :: 0 <= k && k < len(*out) ==> (*out)[k] == encOut(val, enc.Opts)[k]
+//@   loop 0: invariant forall j int :: old($wlen) <= j && j < old($wlen) + len(*out) ==> (*out)[j - old($wlen)] == encOut(val, enc.Opts)[j - old($wlen)]
 //@   loop 0: invariant forall j int :: old($wlen) <= j && j < $wlen ==> $wbuf[j] == (*out)[j - old($wlen)]
 //@   loop 0: invariant forall k int :: 0 <= k && k < old($wlen) ==> $wbuf[k] == old($wbuf[k])
 //@   loop 0: decreases len(buf)
